@@ -257,7 +257,7 @@ def neutral(old_text, new_text, syntax):
 
 # --------------------------------------------------------------------------- stream 1: neutral
 def gen_neutral(rng, tier, escalate):
-    n = 1400 * (4 if (tier == "thorough" or escalate) else 1)
+    n = 2000 * (4 if (tier == "thorough" or escalate) else 1)
     cases, tries = [], 0
     while len(cases) < n and tries < n * 12:
         tries += 1
